@@ -168,8 +168,10 @@ Lemma child_plans_ok : forall cis o ps0 hist entry pls,
   forall pl, In pl pls -> plan_ok cis o ps0 hist pl.
 Proof.
   intros cis o ps0 hist [fid locations] pls Hloc H pl Hpl. unfold child_plans in H. cbn [fst snd] in *.
-  destruct (hist fid) as [cl| |] eqn:Eh; [| |discriminate].
-  - destruct (collect_ok _ _ _ _ _ H) as [Hpls Hall]. subst pls.
+  destruct (hist fid) as [[|c0 cl0]| |] eqn:Eh; [| | |discriminate].
+  - destruct (o_ignore_missing o); [|discriminate]. inversion H; subst. destruct Hpl.
+  - set (cl := c0 :: cl0) in *.
+    destruct (collect_ok _ _ _ _ _ H) as [Hpls Hall]. subst pls.
     apply in_flat_map in Hpl. destruct Hpl as [g [Hg Hpl]].
     destruct (Hall g Hg) as [x Hx]. unfold ok_or_nil in Hpl. rewrite Hx in Hpl.
     eapply group_plans_ok; [exact Eh| |exact Hx|exact Hpl].
